@@ -54,6 +54,8 @@ def configs(tier):
             out.append(('%s-%s-N%d-A' % (v, r, n), p))
     out.append(('sift-kwargs-N6-B', {'variant': 'sift', 'route': 'kwargs', 'N': 6, 'optset': 'B', 'nens': 1, 'nphases': 1}))
     out.append(('mask_sift-kwargs-N5-B', {'variant': 'mask_sift', 'route': 'kwargs', 'N': 5, 'optset': 'B', 'nens': 1, 'nphases': 1}))
+    out.append(('sift-config-N5-C-after-editing-another-config', {'variant': 'sift', 'route': 'config', 'N': 5, 'optset': 'C', 'nens': 1, 'nphases': 1}))
+    out.append(('mask_sift-partial-N5-C-after-editing-another-config', {'variant': 'mask_sift', 'route': 'partial', 'N': 5, 'optset': 'C', 'nens': 1, 'nphases': 1}))
     return out
 
 
@@ -64,6 +66,17 @@ def option_set(h, which):
         env = {'interp_method': 'mono_pchip'}
         ext = {'pad_width': 3, 'parabolic_extrema': False, 'loc_pad_opts': {'mode': 'reflect', 'reflect_type': 'odd'},
                'mag_pad_opts': {'mode': 'edge'}}
+    elif which == 'C':
+        # only some options are supplied; the pad option dictionaries must be the documented defaults even though another
+        # configuration object was edited in place beforehand (configurations must not share state)
+        decoy = S.get_config('sift')
+        decoy['extrema_opts/mag_pad_opts/stat_length'] = 3
+        decoy['extrema_opts/mag_pad_opts/mode'] = 'mean'
+        decoy['imf_opts/max_iters'] = 7
+        imf = {'stop_method': 'fixed', 'max_iters': 1, 'env_step_size': step}
+        env = {'interp_method': 'pchip'}
+        ext = {'pad_width': 1, 'parabolic_extrema': False, 'loc_pad_opts': {'mode': 'reflect', 'reflect_type': 'odd'},
+               'mag_pad_opts': {'mode': 'median', 'stat_length': 1}}
     else:
         imf = {'stop_method': 'fixed', 'max_iters': 1, 'env_step_size': step, 'sd_thresh': 0.0123}
         env = {'interp_method': 'pchip'}
@@ -128,6 +141,8 @@ def call(h, variant, route, X, imf, env, ext, p):
     for k, v in env.items():
         cfg['envelope_opts/' + k] = v
     for k, v in ext.items():
+        if p['optset'] == 'C' and k in ('loc_pad_opts', 'mag_pad_opts'):
+            continue
         cfg['extrema_opts/' + k] = v
     if route == 'config':
         return fn(X, **cfg)
